@@ -307,3 +307,8 @@ func sameStrings(a, b []string) bool {
 	}
 	return true
 }
+
+// HasWord reports whether s mentions the identifier w as a whole word.
+func HasWord(s, w string) bool {
+	return w != "" && ReplaceWord(s, w, "\x00") != s
+}
